@@ -436,6 +436,19 @@ pub fn run(ctx: &mut Ctx) {
         } else {
             base
         };
+        // one case in five on a four-stream copy of the common voice (the last stream doubled)
+        let base: Arc<Voice> = if idx % 5 == 4 && base.stream_models.len() == base.metadata.num_streams && base.metadata.stream_type.len() == base.metadata.num_streams {
+            let mut b = (*base).clone();
+            let last = b.stream_models.last().unwrap().clone();
+            b.stream_models.push(last);
+            let t = format!("{}2", b.metadata.stream_type.last().unwrap());
+            b.metadata.stream_type.push(t);
+            b.metadata.num_streams += 1;
+            ctx.count("four_stream_voice_lists", 1.0);
+            Arc::new(b)
+        } else {
+            base
+        };
         let mut odd = (*base).clone();
         let name = mutate(&mut odd, field, rng, shape);
         let odd = Arc::new(odd);
